@@ -93,7 +93,7 @@ func mk(t target) resource.Resource {
 var owners = []string{self, other, "", "<absent>"}
 
 var opNames = []string{"Get", "List", "ContextWithTeardown", "GetUncached", "ListUncached", "Create", "CreateNoOwner", "Update", "Modify", "ModifyWithResult", "ModifyNoOwner",
-	"Teardown", "TeardownWithOwnerOther", "Destroy", "DestroyWithOwnerOther", "DestroyWithOwnerNobody", "AddFinalizer", "RemoveFinalizer"}
+	"Teardown", "TeardownWithOwnerOther", "Destroy", "DestroyWithOwnerOther", "DestroyWithOwnerNobody", "AddFinalizer", "RemoveFinalizer", "TrackCleanup"}
 
 type rw interface {
 	controller.ReaderWriter
@@ -163,6 +163,14 @@ func doOp(ctx context.Context, r rw, raw state.State, op string, t target) error
 		return r.AddFinalizer(ctx, p, "fin")
 	case "RemoveFinalizer":
 		return r.RemoveFinalizer(ctx, p, "fin")
+	case "TrackCleanup":
+		// a reconcile pass with output tracking that touches nothing, then the sweep over the target's kind
+		ot, ok := r.(controller.OutputTracker)
+		if !ok {
+			return nil // queue controllers have no output tracking
+		}
+		ot.StartTrackingOutputs()
+		return ot.CleanupOutputs(ctx, kind)
 	}
 	panic("unknown op " + op)
 }
@@ -262,6 +270,20 @@ func policy(d declT, op string, t target, owner string) (declared bool, wantErr 
 			return false, true, cur
 		}
 		return true, false, cur // nothing to remove; absent is not an error
+	case "TrackCleanup":
+		if d.q {
+			return true, false, cur
+		}
+		if !(isOutput || inputMatchList) {
+			return false, true, cur // the sweep may not even list the kind
+		}
+		if present && owner == self {
+			if isOutput {
+				return true, false, "" // the controller's own, untouched in this pass: swept
+			}
+			return true, true, cur // its own resource of an input-only kind: the sweep's Destroy is refused
+		}
+		return true, false, cur // foreign or unowned resources are never the sweep's business
 	}
 	panic(op)
 }
